@@ -15,11 +15,13 @@ structure DelOut (s s' : St) (o : Nat) : Prop where
   ptr_out : ∀ w, (∀ x, w ∉ s.ring x) → (s'.ptr w = s.ptr w ∨ s'.ptr w = none)
   alive_sub : ∀ t, s'.alive t = true → s.alive t = true
   devs : ∀ t, s.alive t = true → s.kind t = .dev → t ≠ o → s'.alive t = true
+  ptr_in : ∀ w, w ∈ s.ring o → s'.ptr w = none
 
 theorem DelOut.of_killed {s s' : St} {K : List Nat} {o : Nat} (hk : Killed s K s') (ho : o ∈ K)
     (hK : ∀ x ∈ K, x = o ∨ s.kind x ≠ s.kind o) (hD : ∀ x ∈ K, x = o ∨ s.kind x ≠ .dev) : DelOut s s' o := by
   refine ⟨by rw [hk.alive]; simp [ho], ?_, fun v _ => by rw [hk.vlive], hk.kind, hk.next,
-    fun w hw => Or.inl (hk.ptrU w (fun x _ => hw x)), fun t ht => ((hk.alive_iff t).mp ht).1, ?_⟩
+    fun w hw => Or.inl (hk.ptrU w (fun x _ => hw x)), fun t ht => ((hk.alive_iff t).mp ht).1, ?_,
+    fun w hw => hk.ptrK w o ho hw⟩
   rotate_left
   · intro t hta htk hto
     rw [hk.alive]
